@@ -49,7 +49,7 @@ pub fn expected_trace(start: &str, hops: &[(u16, Option<Vec<u8>>)], follow: bool
         // usable = resolves to an absolute URL with a host
         let next = spec::resolve_ref(&cur, &loc);
         let p = spec::parse_uri_ref(&next);
-        let usable = p.scheme.is_some() && p.authority.as_deref().map_or(false, |a| !a.is_empty());
+        let usable = matches!(p.scheme.as_deref(), Some("http") | Some("https")) && p.authority.as_deref().map_or(false, |a| !a.is_empty());
         if !usable {
             return (urls, Outcome::LocationError);
         }
@@ -80,7 +80,13 @@ fn gen_location(rng: &mut Rng) -> (Option<Vec<u8>>, &'static str) {
         7 => (Some(b"?only=query".to_vec()), "query-only"),
         8 => (Some(b"next#frag".to_vec()), "with-fragment"),
         9 => (Some(b"".to_vec()), "empty"),
-        10 => (Some(b"http://".to_vec()), "unparsable"),
+        10 => {
+            if rng.chance(1, 2) {
+                (Some(b"http://".to_vec()), "unparsable")
+            } else {
+                (Some(b"ftp://files.test/pub/x".to_vec()), "non-http-scheme")
+            }
+        }
         _ => (Some(b"sub/page".to_vec()), "relative"),
     }
 }
@@ -92,6 +98,7 @@ pub fn generate_c09(seed: u64, tier: &str, sink: &mut Sink) {
         let len = rng.range(1, 8) as usize;
         let max = rng.below(7) as u32;
         let follow = !rng.chance(1, 6);
+        let via_proxy = rng.chance(1, 4);
         let start = rng.pick(&["http://start.test/a/b/c?x=1", "http://start.test", "http://start.test:8080/dir/", "https://start.test/s"]).to_string();
         let mut hops: Vec<(u16, Option<Vec<u8>>)> = vec![];
         let mut kinds: Vec<&'static str> = vec![];
@@ -119,7 +126,7 @@ pub fn generate_c09(seed: u64, tier: &str, sink: &mut Sink) {
             max_redirections: max,
             max_headers: 100,
             compress: false,
-            proxy: ProxyCfg { http: None, https: None, no_proxy: vec![] },
+            proxy: if via_proxy { ProxyCfg { http: Some("http://proxy.test:3128".into()), https: None, no_proxy: vec![] } } else { ProxyCfg { http: None, https: None, no_proxy: vec![] } },
             params: vec![],
             pre: vec![],
             body: BodyR::Empty,
@@ -149,13 +156,18 @@ pub fn generate_c09(seed: u64, tier: &str, sink: &mut Sink) {
                 let wu = Url::parse(&want[i]).unwrap();
                 let pr = spec::parse_request(&h.written).map_err(|e| ("malformed-hop".to_string(), e))?;
                 let dh = h.dial.host.trim_matches(|c| c == '[' || c == ']');
-                if dh != wu.host_str().unwrap() || h.dial.port != wu.port_or_known_default().unwrap() || pr.target != origin_form(&wu) {
+                if via_proxy && wu.scheme() == "http" {
+                    // plain http through the proxy: the hop is identified by its absolute-form target
+                    if dh != "proxy.test" || h.dial.port != 3128 || pr.target != url_show(&wu).as_bytes() {
+                        return Err(("wrong-hop-url".into(), format!("hop {} (via proxy) went to {}:{} {:?}, RFC 3986 resolution gives {}", i, h.dial.host, h.dial.port, String::from_utf8_lossy(&pr.target), want[i])));
+                    }
+                } else if dh != wu.host_str().unwrap() || h.dial.port != wu.port_or_known_default().unwrap() || pr.target != origin_form(&wu) {
                     return Err(("wrong-hop-url".into(), format!("hop {} went to {}:{} {:?}, RFC 3986 resolution gives {}", i, h.dial.host, h.dial.port, String::from_utf8_lossy(&pr.target), want[i])));
                 }
             }
             match (&outcome, &obs.fin) {
                 (Outcome::TooMany, FinalObs::Err(k)) if k == "tooManyRedirections" => Ok(()),
-                (Outcome::LocationError, FinalObs::Err(k)) if k == "locationHeader" || k == "redirectionUrl" => Ok(()),
+                (Outcome::LocationError, FinalObs::Err(k)) if k == "locationHeader" || k == "redirectionUrl" || k == "invalidBaseUrl" => Ok(()),
                 (Outcome::Returned(st, u), FinalObs::Ok(s2, u2)) if *st == *s2 && norm(u).as_deref() == Some(u2.as_str()) => Ok(()),
                 (Outcome::Returned(0, _), FinalObs::Err(_)) => Ok(()), // chain longer than the script: connection yields EOF
                 (e, f) => Err((format!("outcome-{}", match e { Outcome::TooMany => "too-many", Outcome::LocationError => "location", Outcome::Returned(..) => "returned" }), format!("expected {:?}, got {:?}", e, f))),
@@ -169,6 +181,7 @@ pub fn generate_c09(seed: u64, tier: &str, sink: &mut Sink) {
                 format!("follow={}", follow),
                 format!("outcome={}", match outcome { Outcome::TooMany => "too-many", Outcome::LocationError => "location-error", Outcome::Returned(0, _) => "ran-out", Outcome::Returned(..) => "returned" }),
                 format!("loc0={}", kinds[0]),
+                format!("proxy={}", via_proxy),
                 if obs.hops.len() > 1 { "nontrivial".into() } else { "trivial".into() },
             ],
             op,
@@ -200,7 +213,12 @@ pub fn generate_chains(seed: u64, n: usize, proxy_focus: bool, sink: &mut Sink) 
                 hops.push((200, None));
             } else {
                 let next = rng.pick(&targets).to_string();
-                hops.push((*rng.pick(&[301u16, 302, 303, 307, 308, 307, 308]), Some(next.clone().into_bytes())));
+                // how the server spells the Location: absolute, or a network-path reference (`//host:port/p`,
+                // same scheme) — both change the authority
+                let cur_scheme = urls.last().unwrap().split("://").next().unwrap().to_string();
+                let next_scheme = next.split("://").next().unwrap().to_string();
+                let loc = if cur_scheme == next_scheme && rng.chance(1, 3) { next[next_scheme.len() + 1..].to_string() } else { next.clone() };
+                hops.push((*rng.pick(&[301u16, 302, 303, 307, 308, 307, 308]), Some(loc.into_bytes())));
                 urls.push(next);
             }
         }
